@@ -10,8 +10,9 @@ import subprocess
 import sys
 import time
 
-ROOT = "/verif"
-REPO = "/repo"
+# the registered checks always run with the defaults; the overrides exist for bin/seedcheck_iso, which tests a seeded change in a scratch copy
+ROOT = os.environ.get("VERIF_ROOT", "/verif")
+REPO = os.environ.get("VERIF_REPO", "/repo")
 BUILD = os.path.join(ROOT, ".build")
 LEAN = os.path.join(ROOT, "lean")
 GEN = os.path.join(LEAN, "PV", "Generated")
@@ -153,14 +154,26 @@ def source_audit():
     return bad
 
 
+def property_files(pid):
+    """PV/Properties/<pid>.lean plus the optional extension PV/Properties/<pid>x.lean (theorems about the executable MIRRORS of the Go
+    algorithms: they import the proofs in PV/Proofs, which in turn import <pid>.lean, so they cannot live in <pid>.lean itself)."""
+    out = [pid]
+    if os.path.exists(os.path.join(LEAN, "PV", "Properties", pid + "x.lean")):
+        out.append(pid + "x")
+    return out
+
+
 def property_theorems(pid):
-    """Names of the obligations of a property = theorems `<pid>_*` in PV/Properties/<pid>.lean."""
-    p = os.path.join(LEAN, "PV", "Properties", pid + ".lean")
-    src = strip_comments(open(p).read())
-    ns = re.search(r"^namespace\s+(\S+)", src, re.M)
-    prefix = (ns.group(1) + ".") if ns else ""
-    names = re.findall(r"^\s*theorem\s+(" + pid + r"_\w+)", src, re.M)
-    return [prefix + n for n in names]
+    """Names of the obligations of a property = theorems `<pid>_*` in PV/Properties/<pid>.lean and <pid>x.lean."""
+    out = []
+    for mod in property_files(pid):
+        p = os.path.join(LEAN, "PV", "Properties", mod + ".lean")
+        src = strip_comments(open(p).read())
+        ns = re.search(r"^namespace\s+(\S+)", src, re.M)
+        prefix = (ns.group(1) + ".") if ns else ""
+        names = re.findall(r"^\s*theorem\s+(" + pid + r"_\w+)", src, re.M)
+        out += [prefix + n for n in names]
+    return out
 
 
 def axiom_audit(pid, theorems):
@@ -168,7 +181,8 @@ def axiom_audit(pid, theorems):
     os.makedirs(os.path.join(BUILD, "audit"), exist_ok=True)
     f = os.path.join(BUILD, "audit", "Audit_%s.lean" % pid)
     with open(f, "w") as fh:
-        fh.write("import PV.Properties.%s\n" % pid)
+        for mod in property_files(pid):
+            fh.write("import PV.Properties.%s\n" % mod)
         for t in theorems:
             fh.write("#print axioms %s\n" % t)
     rc, out = sh(["lake", "env", "lean", f], cwd=LEAN, timeout=1800)
@@ -377,6 +391,8 @@ class Result:
             "coverage": self.coverage, "assumptions": self.assumptions,
             "wall_s": round(time.time() - self.t0, 2), "violations": len(seen),
         }
+        if level == "other" and not str(ev["coverage"].get("explanation", "")).strip():
+            ev["coverage"]["explanation"] = OTHER_EXPLANATION.get(self.pid, OTHER_EXPLANATION["default"])
         if self.notes:
             ev["coverage"]["notes"] = self.notes
         if self.known:
@@ -385,6 +401,20 @@ class Result:
         with open(os.path.join(EVID, self.pid + ".json"), "w") as f:
             json.dump(ev, f, indent=1, default=str)
         return 1 if seen else 0
+
+
+OTHER_EXPLANATION = {
+    "default": "partial: the logic part of the property is proved in Lean over a model tied to /repo (obligations / discharged / theorems), "
+               "the part of its truth that lives in a runtime the model cannot exhibit is explored (evaluations / distribution); see level_note in MANIFEST.json",
+    "C06": "partial by design (DESIGN.md 4 C06, 10.2): isolation of a bad file and the exit-status logic are PROVED over the model of the five per-file service loops "
+           "and main (theorems C06_isolation, C06_results, C06_exit, and C06_facts pinning the loops' guards/continues to the source, regenerated every run); "
+           "crash-freedom, termination and the time bound of tree-sitter (C), cgo and the Go runtime cannot be exhibited by a Lean model and are SEARCHED: the valid clause x statement "
+           "matrix, clause-body defects, a malformed byte stream alone and mixed into valid projects, large foreign text, scaling probes (counts in evaluations/distribution)",
+    "C20": "partial by design (DESIGN.md 4 C20, 10.2): that the combined report is the per-analysis results put side by side, that a disabled analysis contributes nothing and that per-file "
+           "results do not depend on the other files is PROVED over the combination model (C20_select, C20_disabled, C20_per_file, and C20_facts pinning Execute's task table, goroutine starts "
+           "and result assignments to the source, regenerated every run); absence of shared mutable state between the analysis goroutines is a property of the Go runtime execution that the "
+           "model cannot exhibit and is EXPLORED: combined vs separate runs, file subsets/orders, the race-detector build under GOMAXPROCS 2/8/16, MCP tools in process (counts in evaluations/distribution)",
+}
 
 
 TRUSTED_BASE = [
@@ -442,7 +472,7 @@ def prove(pid, extra_targets=(), need_driver=True):
         ok, out = run_extract()
         ps.output += out
         extract_errors = [l for l in out.split("\n") if l.startswith("EXTRACT-ERROR")]
-        targets = ["PV.Properties." + pid] + list(extra_targets)
+        targets = ["PV.Properties." + m for m in property_files(pid)] + list(extra_targets)
         ok, out = lake_build(targets)
         ps.output += out
         if not ok:
@@ -463,7 +493,7 @@ def prove(pid, extra_targets=(), need_driver=True):
         ps.theorems = property_theorems(pid)
         if ok and os.environ.get("PV_TIER") == "thorough":
             # independent re-check of the compiled module (and everything it imports from this project) by leanchecker
-            rc, outc = sh(["lake", "env", "leanchecker", "PV.Properties." + pid], cwd=LEAN, timeout=1800)
+            rc, outc = sh(["lake", "env", "leanchecker"] + ["PV.Properties." + m for m in property_files(pid)], cwd=LEAN, timeout=1800)
             ps.output += outc
             ps.leanchecker = "ok" if rc == 0 else "FAILED"
             if rc != 0:
